@@ -67,11 +67,13 @@ def initial_state(ex, table, specs, contract, fi, cls):
         ty = parse_ty(tys)
         v = fresh_value(ty, p)
         if ty.kind == 'ref':
+            ex.ref_args.append(v.t)
             st.assume(z3.Or(v.t == NONE, st.heap.alive(v.t)))
             if ty.cls in table.classes:
                 st.assume(z3.Or(v.t == NONE, ex.isinstance_term(v.t, ty.cls)))
             if ty.cls in ('list', 'dict'):
-                st.assume(v.t != NONE)
+                if not tys.strip().endswith('?'):
+                    st.assume(v.t != NONE)
                 ex.note_dict(v)
                 if ty.cls == 'list':
                     st.assume(st.heap.llen(v.t) >= 0)
